@@ -41,6 +41,8 @@ def tasks(tier, seed=0):
     out += [task(U, "ob_get_bytes", f"utils.BV.get_bytes/slice@w{w}", ["C08"], w=w, tier=tier) for w in (8, 20, 24, 32)]
     out += ite_step_tasks(tier, ["C08"], burrow=True)
     out += shape_tasks(tier, seed)
+    out.append(task("vf.bounded.substitute", "run", "utils.replace+replace_dict+canonicalize/exact-substitution-shapes", ["C08"], kind="bounded",
+                    replay="vf.bounded.substitute:replay", budget_s=120 if tier == "quick" else 900))
     return out
 
 
